@@ -237,3 +237,56 @@ func VerifRun_C08f() {
 		verifViolation("", "diagnostics after batches of create / change / delete events differ from those of a fresh start on the files that exist")
 	}
 }
+
+// C08-i: project mode (an entry file in luahelper.json's ProjectFiles): the entry requires "util", which is
+// resolved by the closest file of that name. Files named util.lua appear and disappear next to the entry and
+// in a shared folder; one of them defines the global the entry reads. After every event the diagnostics equal
+// those of a fresh start on the files that now exist (the project's membership follows the re-resolved
+// require).
+func VerifRun_C08i() {
+	root := verifVFSRoot()
+	c08workspace(root)
+	mainF := root + "/game/main.lua"
+	cands := []string{root + "/game/util.lua", root + "/common/util.lua", root + "/common/lib/util.lua"}
+	texts := []string{"MAX_HP = 100\nreturn {}\n", "function clamp(v) return v end\nreturn {}\n", "LIMIT = 1\nreturn {}\n"}
+	verifVFSPut(mainF, []byte("local u = require(\"util\")\nq = MAX_HP\nr = clamp\ns = LIMIT\nt = u\n"))
+	on := make([]bool, len(cands))
+	files := []string{mainF}
+	for i := range cands {
+		on[i] = verifBool("present")
+		if on[i] {
+			verifVFSPut(cands[i], []byte(texts[i]))
+			files = append(files, cands[i])
+		}
+	}
+	entries := []string{mainF}
+	p := CreateAllProject(files, entries, nil)
+	p.HandleCheck()
+	all := append([]string{mainF}, cands...)
+	for k := 0; k < verifParam("EVENTS"); k++ {
+		i := verifConcretize(verifRange("which", 0, len(cands)-1))
+		if on[i] {
+			verifVFSDel(cands[i])
+			p.HandleFileEventChanges([]FileEventStruct{{StrFile: cands[i], Type: FileEventDeleted}})
+		} else {
+			verifVFSPut(cands[i], []byte(texts[i]))
+			p.HandleFileEventChanges([]FileEventStruct{{StrFile: cands[i], Type: FileEventCreated}})
+		}
+		on[i] = !on[i]
+		now := []string{mainF}
+		for j := range cands {
+			if on[j] {
+				now = append(now, cands[j])
+			}
+		}
+		fresh := CreateAllProject(now, entries, nil)
+		fresh.HandleCheck()
+		verifReach("compared")
+		if c08diag(p, all) != c08diag(fresh, all) {
+			verifObserve("history", c08diag(p, all))
+			verifObserve("fresh", c08diag(fresh, all))
+			verifViolation("", "project mode: diagnostics after a create/delete event of a required file differ from those of a fresh start")
+			return
+		}
+	}
+}
